@@ -66,9 +66,15 @@ def oracle(ctx, seeds=None):
         if i % 7 == 0:
             subset = [False] * neq
         calls = [0] * neq
+        tabulated = bool(i % 2)      # a source that returns the SAME stored array at every call (a tabulated profile)
+        tables = {}
         def mk(k):
             def s(x, qd, k=k):
                 calls[k] += 1
+                if tabulated:
+                    if k not in tables:
+                        tables[k] = coef[k, 0] + coef[k, 1] * np.asarray(x, dtype=float)
+                    return tables[k]
                 return coef[k, 0] + coef[k, 1] * x + coef[k, 2] * qd[0] * qd[-1]
             return s
         src = [mk(k) if subset[k] else None for k in range(neq)]
@@ -87,6 +93,9 @@ def oracle(ctx, seeds=None):
         def run():
             m1, msh, d1, f1 = build(True)
             r1 = [np.array(x, dtype=float).copy() for x in d1.rhs(f1)]
+            again = [[np.array(x, dtype=float).copy() for x in d1.rhs(f1)] for _ in range(2)]     # added exactly once, at every evaluation
+            for k in range(neq):
+                calls[k] = calls[k] // 3 if calls[k] % 3 == 0 else calls[k]
             m0, _, d0, f0 = build(False)
             r0 = [np.array(x, dtype=float).copy() for x in d0.rhs(f0)]
             geo = None
@@ -95,18 +104,22 @@ def oracle(ctx, seeds=None):
                 de = impl.modeldisc.fvm(me, msh, cfg1d.make_scheme(cfg['scheme']), numflux=cfg['flux'], bcL=cfg1d.bc_for_impl(cfg['bcL']), bcR=cfg1d.bc_for_impl(cfg['bcR']))
                 re_ = [np.array(x, dtype=float).copy() for x in de.rhs(impl.field.fdata(me, msh, [d.copy() for d in f1.data]))]
                 geo = [r0[k] - re_[k] for k in range(3)]
-            return msh, f1, r1, r0, geo, m0
+            return msh, f1, r1, r0, geo, m0, again
         ok, out = impl.guarded(run)
         res.case((model, tuple(subset), cfg['scheme'][0], cfg['bcL']['type']))
         rp = dict(cfg=cfg, subset=subset, coef=coef.tolist())
         if not ok:
             res.fail('%s:raised' % model, out, rp); continue
-        msh, f1, r1, r0, geo, m0 = out
+        msh, f1, r1, r0, geo, m0, again = out
         if not all(np.all(np.isfinite(x)) for x in r0):
             res.count('skipped-inadmissible'); continue
         xc = msh.centers()
         for k in range(neq):
-            exp = (coef[k, 0] + coef[k, 1] * xc + coef[k, 2] * f1.data[0] * f1.data[-1]) if subset[k] else 0.0 * xc
+            exp = ((coef[k, 0] + coef[k, 1] * xc + (0.0 if tabulated else coef[k, 2] * f1.data[0] * f1.data[-1])) if subset[k] else 0.0 * xc)
+            if not all(np.array_equal(a_[k], r1[k]) for a_ in again):
+                res.fail('%s:source-eq%d:not-repeatable' % (model, k), "a second / third evaluation of rhs on the same field gives a different equation %d (max change %r; sources %s)" %
+                         (k, max(float(np.max(np.abs(a_[k] - r1[k]))) for a_ in again), 'tabulated' if tabulated else 'computed'), rp)
+                break
             sc = float(np.max(np.abs(r0[k]))) + float(np.max(np.abs(exp))) + 1e-300
             if not np.all(np.abs((r1[k] - r0[k]) - exp) <= 1e-11 * sc):
                 res.fail('%s:source-eq%d:%s' % (model, k, 'given' if subset[k] else 'none'),
